@@ -743,6 +743,7 @@ def check_others(ctx, recs):
     outs = ctx.coq_files_parallel(bodies)
     ctx.extra["l2f_mobj_model_cases"] = ctx.extra.get("l2f_mobj_model_cases", 0) + len(terms)
     ctx.traces += len(terms)
+    pending = []          # reported after the oracle-based violations (which carry a failing input)
     for si, out in enumerate(outs):
         pairs = ctx.parse_pairs(out)
         for (i, code) in (pairs[0] if pairs else []):
@@ -761,12 +762,11 @@ def check_others(ctx, recs):
                 what.append("rope's refusal differs from Local.l2f_refuses")
             if code & 4:
                 what.append("the Obj run of the model's result differs from CPython's output of the original")
-            ctx.violation(dict(replay_obj(r), mismatch=what, new_sources=r.get("new"),
-                               broken="correspondence RopeVerif.C17.Runner.run_ocase (Local.v vs rope/refactor/"
-                                      "localtofield.py, method_object.py)"),
-                          "C17 %s: %s" % (r["kind"], "; ".join(what)), no_input=True)
-            if ctx.too_many():
-                return
+            pending.append((dict(replay_obj(r), mismatch=what, new_sources=r.get("new"),
+                                 broken="correspondence RopeVerif.C17.Runner.run_ocase (Local.v vs rope/refactor/"
+                                        "localtofield.py, method_object.py)"),
+                            "C17 %s: %s" % (r["kind"], "; ".join(what))))
+    return pending
 
 
 def evaluate_nest(rng):
@@ -786,7 +786,7 @@ def evaluate_nest(rng):
     rng.shuffle(funcs)
     for f in funcs[:4]:
         add("mobj", f, do_method_object(srcs, "ma", f), {})
-    for f in rng.sample(["top", "solo", "inner", "plain", "helper"], 2):
+    for f in [rng.choice(["inner", "helper"]), rng.choice(["top", "solo", "plain"])]:
         add("usef", f, do_use_function(srcs, "ma", f), {})
     rng.shuffle(locs)
     for anchor, is_method_local in locs[:4]:
@@ -807,7 +807,47 @@ def evaluate_usef(prj):
     return [rec]
 
 
+def evaluate_augrhs(rng):
+    """EncapsulateField on the right-hand-side scenario: text-level model + oracle (no Obj model: tuples, conditional
+    expressions ... are outside Obj)."""
+    srcs = G.augrhs_project(rng)
+    found = {}
+    st, new = do_encapsulate(srcs, "__init__", found=found)
+    rec = {"kind": "enct", "prj": {"hazard": None, "textonly": "augrhs", "defining": "__init__"}, "srcs": srcs,
+           "before": None, "rt_ok": True, "rope_prj": None, "oracle": None, "status": st,
+           "new": new if st == "ok" else None, "skip_model": True, "found": found, "defining": "__init__"}
+    if st != "ok":
+        rec["msg"] = new
+    return [rec]
+
+
+def class_indentation(src, cls="C"):
+    m = re.search(r"^( *)class %s\(" % cls, src, re.M)
+    return len(m.group(1))
+
+
+def evaluate_compound(rng):
+    """IntroduceFactory on a class inside a module-level compound statement: the static factory must preserve
+    behaviour; the global factory is refused exactly when the class is indented (compared with rope's answer)."""
+    srcs = G.compound_class_project(rng)
+    recs = []
+    for kind, glob in (("fact", False), ("fact", True)):
+        st, new = do_factory(srcs, global_=glob)
+        rec = {"kind": kind, "prj": {"hazard": None, "textonly": "compound"}, "srcs": srcs, "before": None, "rt_ok": True,
+               "rope_prj": None, "oracle": None, "status": st, "new": new if st == "ok" else None, "skip_model": True,
+               "global": glob, "expect_refusal": bool(glob and class_indentation(srcs["ma"]) > 0)}
+        if st != "ok":
+            rec["msg"] = new
+        recs.append(rec)
+    return recs
+
+
 def replay_obj(rec):
+    if rec["kind"] == "enct":
+        return {"kind": "enc", "sources": rec["srcs"], "defining": "__init__", "field": "x"}
+    if rec["kind"] == "fact":
+        return {"kind": "fac", "sources": rec["srcs"], "global": rec["global"],
+                "shape": "global" if rec["global"] else "static"}
     if rec["kind"] in ("mobj", "usef"):
         return {"kind": rec["kind"], "sources": rec["srcs"], "mod": rec["mod"], "target": rec["target"]}
     if rec["kind"] == "l2f":
@@ -834,8 +874,8 @@ def check_records(ctx, recs):
                       "Eval vm_compute in (count_domain cases).\n" % G.g_list(terms).replace("; {| c_cfg", ";\n {| c_cfg"))
     # text-level cases: every EncapsulateField record, including the layout hazards
     sterms, sowner = [], []
-    for i, r in enumerate(recs[:n_model]):
-        if r["kind"] == "enc":
+    for i, r in enumerate(recs):
+        if r["kind"] in ("enc", "enct"):
             for t in scase_terms(r):
                 sterms.append(t)
                 sowner.append(i)
@@ -868,6 +908,16 @@ def check_records(ctx, recs):
         ctx.count("%s:%s" % (kind, r["status"]))
         hz = r["prj"].get("hazard")
         ctx.count("%s:stream:%s" % (kind, hz or "main"))
+        if r["prj"].get("textonly"):
+            ctx.count("%s:%s:%s" % (kind, r["prj"]["textonly"], r["status"]))
+        if kind == "fact" and (r["status"] == "refused") != r["expect_refusal"]:
+            ctx.violation(dict(replay_obj(r), observed="status %s%s" % (r["status"], (": " + r.get("msg", ""))[:120]),
+                               broken="refusal rule of IntroduceFactory for global factories: refused iff the class "
+                                      "statement is indented"),
+                          "C17 fac: global factory %s although the class statement is %s" % (
+                              "refused" if r["status"] == "refused" else "accepted",
+                              "indented" if r["expect_refusal"] else "at column 0"),
+                          no_input=(r["status"] == "refused"))
         if kind == "l2f" and r.get("l2f_target"):
             ctx.count("l2f:target:%s:%s" % (r["l2f_target"], r["status"]))
         if r["prj"].get("nest"):
@@ -989,6 +1039,10 @@ def run(ctx):
             recs.extend(evaluate_others(p, ctx.rng))
     for i in range(ctx.scale(12, 120)):
         recs.extend(evaluate_nest(ctx.rng))
+    for i in range(ctx.scale(20, 200)):
+        recs.extend(evaluate_augrhs(ctx.rng))
+    for i in range(ctx.scale(8, 60)):
+        recs.extend(evaluate_compound(ctx.rng))
     # inheritance: the field's class has a base class that defines (or not) methods spelled like the accessors
     n_inh = ctx.scale(12, 120)
     i = 0
@@ -1010,10 +1064,14 @@ def run(ctx):
         ctx.count("usef:helper:%s%s" % (p["usef"]["kind"], (":" + hz) if hz else ""))
         recs.extend(evaluate_usef(p))
     execute_records(recs)
-    check_others(ctx, recs)
+    pending = check_others(ctx, recs)
     for r in recs[:2]:
         ctx.sample({"kind": r["kind"], "ma.py": r["srcs"]["ma"][:600], "after ma.py": (r["new"] or {}).get("ma", "")[:800]})
     check_records(ctx, recs)
+    for obj, summary in pending:
+        if ctx.too_many(8):
+            break
+        ctx.violation(obj, summary, no_input=True)
 
 
 def replay(ctx, obj):
